@@ -135,7 +135,7 @@ Definition index (coll key : val) : val * list diag :=
       | CUnsupported => (dyn_val, [dunsupported])
       | CErr e => (dyn_val, [derr S_InvalidIndex [FConv e]])
       | COk key' =>
-          if negb (is_known key') then (with_same_marks dyn_val coll, [])
+          if negb (is_known key') then (with_same_marks (with_same_marks dyn_val coll) key', [])   (* fix dd4fa25 *)
           else
           match fst (unmark key') with
           | VStr name =>
@@ -530,7 +530,9 @@ Fixpoint eval_with (idx : val -> val -> val * list diag)
           let '(fu, fm) := unmark fv in
           let mk := marks_unions [cm; tm; fm] in
           if negb (is_known cu) then
-            (* unknown condition: refined unknown from both branches *)
+            (* unknown condition: refined unknown from both branches; the marks anywhere inside the
+               two results apply to it (fix 6fe1fc7) *)
+            let mk := marks_unions [mk; deep_marks tu; deep_marks fu] in
             let nn := match definitely_not_null tu, definitely_not_null fu with
                       | Some a, Some b => Some (a && b) | _, _ => None end in
             match tu, fu with
